@@ -70,7 +70,7 @@ def history_body(codes, twin):
         if any(n != "end" for n in names[k:]):
             return True
         names = names[:k]
-    names = [PARAMS["first"]] + names
+    names = [PARAMS["first"]] + ([PARAMS["second"]] if "second" in PARAMS else []) + names
     with NoTracing():
         from unittest import mock
         import pysmt.smtlib.solver as S
